@@ -280,7 +280,10 @@ def rule_z4(chk: Check, ci) -> None:
     ok = False
     for st in walk(init.node):
         if isinstance(st, ast.Assign) and any(dotted(t) == "self._client" for t in st.targets) and isinstance(st.value, ast.Call):
-            t = kwarg(st.value, "timeout")
+            from .common import resolve_simple
+
+            cv = resolve_simple(chk.proj, ci, init, st.value)
+            t = kwarg(cv, "timeout") if isinstance(cv, ast.Call) else None
             ok = t is not None and dotted(t) == "timeout" and "timeout" in init.params
     if not ok:
         chk.finding("Z4", init.key, "timeout-wiring", "the upstream client is not built with the handler's timeout: a stalling upstream holds the downstream client beyond the location's timeout", init.loc())
